@@ -198,7 +198,7 @@ class V(object):
   def _new(self, what, *others):
     self.env.n += 1
     ident = 'r%d' % self.env.n
-    self.env.log.append((what, self.ident) + tuple(getattr(o, 'ident', repr(o)) for o in others) + (ident,))
+    self.env.log.append((what, self.ident) + tuple(rid(o) for o in others) + (ident,))
     return V(self.env, ident)
 
   def __call__(self, *a, **k):
@@ -213,7 +213,7 @@ class V(object):
     if name in ('env', 'ident'):
       object.__setattr__(self, name, v)
     else:
-      self.env.log.append(('setattr:' + name, self.ident, getattr(v, 'ident', repr(v))))
+      self.env.log.append(('setattr:' + name, self.ident, rid(v)))
 
   def __delattr__(self, name):
     self.env.log.append(('delattr:' + name, self.ident))
@@ -222,7 +222,7 @@ class V(object):
     return self._new('getitem', k)
 
   def __setitem__(self, k, v):
-    self.env.log.append(('setitem', self.ident, idx(k), getattr(v, 'ident', repr(v))))
+    self.env.log.append(('setitem', self.ident, idx(k), rid(v)))
 
   def __delitem__(self, k):
     self.env.log.append(('delitem', self.ident, idx(k)))
@@ -243,7 +243,7 @@ class V(object):
     return self._new('neg')
 
   def __lt__(self, o):
-    self.env.log.append(('lt', self.ident, getattr(o, 'ident', repr(o))))
+    self.env.log.append(('lt', self.ident, rid(o)))
     return self.env.truth(self.ident)
 
   def __bool__(self):
@@ -275,10 +275,21 @@ class V(object):
     return 'V(%s)' % self.ident
 
 
+def rid(o):
+  """Stable identity of an operand in the log."""
+  if isinstance(o, V):
+    return o.ident
+  if isinstance(o, tuple):
+    return tuple(rid(x) for x in o)
+  if callable(o):
+    return '<callable>'
+  return repr(o)
+
+
 def idx(k):
   if isinstance(k, slice):
     return ('slice', getattr(k.start, 'ident', k.start), getattr(k.stop, 'ident', k.stop), getattr(k.step, 'ident', k.step))
-  return getattr(k, 'ident', repr(k))
+  return rid(k)
 
 
 class Env(object):
@@ -290,8 +301,8 @@ class Env(object):
     self.fuel = 2
 
   def truth(self, ident):
-    b = (self.bits >> (self.asked % 8)) & 1
-    self.asked += 1
+    # the truth value of an object is a fixed function of its identity (asking twice gives the same answer)
+    b = (self.bits >> (sum(ord(ch) for ch in ident) % 8)) & 1
     return bool(b)
 
   def t(self, i):
@@ -428,6 +439,10 @@ def check_item(item, swap=False):
   for bits in (0b00000000, 0b11111111, 0b01010101, 0b10101010, 0b00110011):
     ro, lo = run(code_o, bits)
     rt, lt = run(code_t, bits)
+    # how often the truth of a value is asked is not an effect of the program text (naming `a and b` and then testing
+    # the name asks once more): truth queries steer control flow but are not compared
+    lo = [e for e in lo if e[0] != 'bool']
+    lt = [e for e in lt if e[0] != 'bool']
     if lo != lt:
       viol.append(('order', 'effects differ with truth pattern %s: %s' % (bin(bits), first_inversion(lo, lt))))
       break
